@@ -152,18 +152,28 @@ func ruleC13Isolation(c *Ctx) {
 	if fa := st.Addr.(*ssa.FieldAddr); c.resolve(fa.X) != ssa.Value(cmdVal) {
 		c.undecided("C13.isolation", "env:target", st.Pos(), name, "cmd.Env is assigned on a command other than the one returned")
 	}
-	app, ok := c.resolve(st.Val).(*ssa.Call)
-	if !ok || !isBuiltin(&app.Call, "append") {
+	base, chain := c.appendChain(st.Val, 0)
+	if len(chain) == 0 {
 		c.violate("C13.isolation", "env:shape", st.Pos(), name, "cmd.Env is not os.Environ() followed by the forced variables")
 		return
 	}
-	base, ok := app.Call.Args[0].(*ssa.Call)
-	if !ok || calleeQ(&base.Call) != "os.Environ" {
+	if bc, ok := base.(*ssa.Call); !ok || calleeQ(&bc.Call) != "os.Environ" {
 		c.violate("C13.isolation", "env:base", st.Pos(), name, "cmd.Env does not start from os.Environ(): the forced variables must come after the inherited ones so that they win")
 	} else {
 		c.hold("C13.isolation", "env:base", st.Pos(), "append(os.Environ(), …)")
 	}
-	elems := c.sliceElemValues(app.Call.Args[1])
+	var elems []ssa.Value
+	for _, ce := range chain {
+		if ce.Spread != nil {
+			if bc, ok := ce.Spread.(*ssa.Call); ok && calleeQ(&bc.Call) == "os.Environ" {
+				c.violate("C13.isolation", "env:order", st.Pos(), name, "the inherited environment is appended after the forced variables: an inherited GIT_DIR/GIT_GRAFT_FILE would win")
+				continue
+			}
+			c.undecided("C13.isolation", "env:spread", st.Pos(), name, "cmd.Env receives a slice of variables that is not a literal list")
+			continue
+		}
+		elems = append(elems, ce.Val)
+	}
 	devNull := c.osDevNull()
 	var haveDir, haveGraft bool
 	seenVars := map[string]int{}
@@ -191,7 +201,7 @@ func ruleC13Isolation(c *Ctx) {
 			} else {
 				c.violate("C13.isolation", "env:GIT_GRAFT_FILE", st.Pos(), name, "GIT_GRAFT_FILE is not os.DevNull: a graft file could add, drop or redirect parent edges")
 			}
-		case "GIT_REPLACE_REF_BASE", "GIT_NO_REPLACE_OBJECTS", "GIT_OBJECT_DIRECTORY", "GIT_ALTERNATE_OBJECT_DIRECTORIES", "GIT_NAMESPACE", "GIT_SHALLOW_FILE", "GIT_COMMON_DIR":
+		case "GIT_REPLACE_REF_BASE", "GIT_NO_REPLACE_OBJECTS", "GIT_OBJECT_DIRECTORY", "GIT_ALTERNATE_OBJECT_DIRECTORIES", "GIT_NAMESPACE", "GIT_SHALLOW_FILE", "GIT_COMMON_DIR", "GIT_WORK_TREE", "GIT_INDEX_FILE", "GIT_CEILING_DIRECTORIES", "GIT_DISCOVERY_ACROSS_FILESYSTEM":
 			c.violate("C13.isolation", "env:"+varName, st.Pos(), name, "forced environment variable "+varName+" changes which objects git sees")
 		default:
 			c.present("C13.isolation", "env:"+varName, st.Pos(), "additional forced variable")
